@@ -53,13 +53,15 @@ Theorem C15_roundtrip_partial : forall S : list (ref * root),
 Proof. exact export_import_roundtrip. Qed.
 Print Assumptions C15_roundtrip_partial.
 
-(* ---- the full statement for every well-formed descriptor set: enums non-empty, split names of
-   messages / enums / real oneofs pairwise distinct, JSON names of the fields and exposed oneofs of a
-   message distinct (wf_desc; the split-name part excludes the known name-collision finding, the rest
-   is what protoc guarantees). Every successful reflection exports, re-imports and re-exports to
-   exactly the same form, every reference resolved. *)
+(* ---- the conclusion of the full statement under the hypothesis wf_keys: enums non-empty (protodesc
+   guarantees it) and the "_"-joined names of messages / enums / real oneofs pairwise distinct (a linked
+   set does NOT guarantee it: the known name-collision finding). Nothing is assumed about property or
+   JSON names. Every successful reflection then exports, re-imports and re-exports to exactly the same
+   form, every reference resolved. [export_set] models addSchemas only: the package bookkeeping of
+   APIFromImage (splitPackageParts errors on unversioned / deep package names) is outside the model
+   (correspondence only). *)
 Theorem C15_reflected_roundtrip : forall D fs S,
-  wf_desc D -> reflect D fs = Ok S ->
+  wf_keys D -> reflect D fs = Ok S ->
   exists X, export_set S = Ok X /\
   exists S', import_api X = ROk S' /\
     (forall k x, In (k, x) X -> exists r', lookup S' k = Some (Linked r') /\ export_root r' = x) /\
@@ -67,6 +69,20 @@ Theorem C15_reflected_roundtrip : forall D fs S,
     refs_resolved S' = true.
 Proof. exact reflect_export_import_roundtrip. Qed.
 Print Assumptions C15_reflected_roundtrip.
+
+(* ---- the generated copy tables carry, for every member of every composite literal of the export and
+   import functions, the source text of its value; each is the member the model copies (Export.v
+   expected_export / expected_import), every copied member is covered, the Kind set per scalar site and
+   the intKinds / floatKinds maps are the model's *)
+Theorem C15_copy_lines_read_the_member_the_model_copies :
+  rhs_table_ok (fun _ => expected_export) ReflectGen.export_rhs = true /\
+  rhs_table_ok expected_import ReflectGen.import_rhs = true /\
+  map (fun fmt => (int_format_name fmt ++ "=>" ++ match int_kind fmt with Some k => kind_go_name k | None => "" end)%string)
+      [1%N; 2%N; 3%N; 4%N] = ReflectGen.intKinds /\
+  map (fun fmt => (float_format_name fmt ++ "=>" ++ match float_kind fmt with Some k => kind_go_name k | None => "" end)%string)
+      [1%N; 2%N] = ReflectGen.floatKinds.
+Proof. exact (conj export_rhs_ok (conj import_rhs_ok (conj (proj1 int_kinds_agree) (proj1 float_kinds_agree)))). Qed.
+Print Assumptions C15_copy_lines_read_the_member_the_model_copies.
 
 (* buildSchemas ranges over Go maps: the result does not depend on the order *)
 Theorem C15_order_independent : forall e1 e2,
